@@ -42,6 +42,16 @@ func ExecOne(pkg, fn string, params map[string]int64, repoDir, verifDir string) 
 			x.InstallSliderSummary(rook, bishop, func(string, int) bool { return true })
 		}
 	}
+	if os.Getenv("VP_TEXTMODEL") != "" {
+		prev := inst.Opt.Setup
+		inst.Opt.Setup = func(x *vexec.Exec, w *run.World) {
+			if prev != nil {
+				prev(x, w)
+			}
+			x.InstallTextModel()
+		}
+		inst.Opt.LoopBound = 70
+	}
 	if pkg == "movegen" {
 		prev := inst.Opt.Setup
 		inst.Opt.Setup = func(x *vexec.Exec, w *run.World) {
